@@ -32,6 +32,8 @@ func main() {
 		fs.Parse(os.Args[2:])
 		p := generate(*prop, *seed, *tier)
 		p.save("/dev/stdout")
+	case "free":
+		cmdFree(os.Args[2:])
 	case "drive":
 		cmdDrive(os.Args[2:])
 	case "determinism":
